@@ -14,6 +14,7 @@ import Mathlib.Data.List.Nodup
 import Mathlib.Data.List.Perm.Basic
 import Mathlib.Data.String.Basic
 import Mathlib.Order.Basic
+import Mathlib.Data.List.Lex
 set_option linter.unusedSimpArgs false
 set_option linter.unusedSectionVars false
 set_option linter.unusedVariables false
@@ -815,6 +816,204 @@ theorem round5_idem (q : Rat) (h : (rhe (fl (q * 100000))).natAbs < 2 ^ 53) : ro
   unfold round5
   have : ((rhe (fl (q * 100000)) : Int) : Rat) / 100000 * 100000 = ((rhe (fl (q * 100000)) : Int) : Rat) := by field_simp
   rw [this, fl_intCast _ h, rhe_intCast]
+
+
+
+/-! ### order of the log is immaterial; the Result of a clean run -/
+
+
+theorem ltIds_iff (a b : List Int) : ltIds a b = true ↔ a < b := by
+  induction a generalizing b with
+  | nil => cases b <;> simp [ltIds]
+  | cons x xs ih =>
+    cases b with
+    | nil => simp [ltIds]
+    | cons y ys =>
+      simp only [ltIds, List.cons_lt_cons_iff]
+      by_cases h1 : x < y
+      · simp [h1]
+      · by_cases h2 : y < x
+        · simp [h1, h2]
+          intro e; omega
+        · have : x = y := by omega
+          simp [h1, h2, this, ih]
+
+section
+variable {α : Type}
+/-- `le a b` for the comparison `lt` -/
+def leOf (lt : α → α → Bool) (a b : α) : Prop := lt b a = false
+
+theorem insertBy_sorted (lt : α → α → Bool)
+    (hasymm : ∀ a b, lt a b = true → lt b a = false)
+    (htrans : ∀ a b c, leOf lt a b → leOf lt b c → leOf lt a c)
+    (x : α) (l : List α) (h : l.Pairwise (leOf lt)) : (insertBy lt x l).Pairwise (leOf lt) := by
+  induction l with
+  | nil => simp [insertBy]
+  | cons y ys ih =>
+    rw [List.pairwise_cons] at h
+    simp only [insertBy]
+    split
+    · rename_i hlt
+      rw [List.pairwise_cons]
+      refine ⟨?_, List.pairwise_cons.mpr h⟩
+      intro b hb
+      rcases List.mem_cons.mp hb with rfl | hb
+      · exact hasymm _ _ hlt
+      · exact htrans _ _ _ (hasymm _ _ hlt) (h.1 b hb)
+    · rename_i hnlt
+      rw [List.pairwise_cons]
+      refine ⟨?_, ih h.2⟩
+      intro b hb
+      rcases List.mem_cons.mp ((insertBy_perm lt x ys).mem_iff.mp hb) with rfl | hb
+      · simpa [leOf] using hnlt
+      · exact h.1 b hb
+
+theorem sortBy_sorted (lt : α → α → Bool)
+    (hasymm : ∀ a b, lt a b = true → lt b a = false)
+    (htrans : ∀ a b c, leOf lt a b → leOf lt b c → leOf lt a c) (l : List α) :
+    (sortBy lt l).Pairwise (leOf lt) := by
+  induction l with
+  | nil => simp [sortBy]
+  | cons x xs ih =>
+    simp only [sortBy, List.foldr_cons] at ih ⊢
+    exact insertBy_sorted lt hasymm htrans x _ ih
+
+theorem sortBy_eq_of_perm (lt : α → α → Bool)
+    (hasymm : ∀ a b, lt a b = true → lt b a = false)
+    (htrans : ∀ a b c, leOf lt a b → leOf lt b c → leOf lt a c)
+    (l l' : List α) (hp : l.Perm l')
+    (hanti : ∀ a ∈ l, ∀ b ∈ l, leOf lt a b → leOf lt b a → a = b) :
+    sortBy lt l = sortBy lt l' := by
+  apply List.Perm.eq_of_pairwise (le := leOf lt)
+  · intro a b ha hb
+    exact hanti a ((sortBy_perm lt l).mem_iff.mp ha) b (hp.mem_iff.mpr ((sortBy_perm lt l').mem_iff.mp hb))
+  · exact sortBy_sorted lt hasymm htrans l
+  · exact sortBy_sorted lt hasymm htrans l'
+  · exact ((sortBy_perm lt l).trans hp).trans (sortBy_perm lt l').symm
+end
+
+theorem ltTriP_asymm (a b : List Int × List PyDict) (h : ltTriP a b = true) : ltTriP b a = false := by
+  unfold ltTriP at *
+  rw [ltIds_iff] at h
+  rw [Bool.eq_false_iff, ne_eq, ltIds_iff]
+  exact lt_asymm h
+
+theorem ltTriP_trans (a b c : List Int × List PyDict) (h1 : leOf ltTriP a b) (h2 : leOf ltTriP b c) : leOf ltTriP a c := by
+  unfold leOf ltTriP at *
+  rw [Bool.eq_false_iff, ne_eq, ltIds_iff] at *
+  exact not_lt.mpr (le_trans (not_lt.mp h1) (not_lt.mp h2))
+
+theorem ltTriP_anti (l : List (List Int × List PyDict)) (hnd : (l.map (·.1)).Nodup) :
+    ∀ a ∈ l, ∀ b ∈ l, leOf ltTriP a b → leOf ltTriP b a → a = b := by
+  intro a ha b hb h1 h2
+  unfold leOf ltTriP at *
+  rw [Bool.eq_false_iff, ne_eq, ltIds_iff] at *
+  have : a.1 = b.1 := le_antisymm (not_lt.mp h1) (not_lt.mp h2)
+  exact List.inj_on_of_nodup_map hnd ha hb this
+
+theorem t4sOf_eq_filterMap (txs : List Tx) :
+    t4sOf txs = txs.filterMap (fun t => match t with | .t4 ids rows => some (ids, rows) | _ => none) := by
+  induction txs with
+  | nil => simp [t4sOf]
+  | cons t ts ih => cases t <;> simp [t4sOf, ih]
+
+/-- the interactions table does not depend on the order in which the evaluations were logged -/
+theorem specInteractions_perm (rnd : Rat → Rat) (txs txs' : List Tx) (hp : txs.Perm txs')
+    (hnd : ((t4sOf txs).map (·.1)).Nodup) : specInteractions rnd txs = specInteractions rnd txs' := by
+  unfold specInteractions
+  have hp' : (t4sOf txs).Perm (t4sOf txs') := by
+    rw [t4sOf_eq_filterMap, t4sOf_eq_filterMap]; exact hp.filterMap _
+  rw [sortBy_eq_of_perm ltTriP ltTriP_asymm ltTriP_trans _ _ hp' (ltTriP_anti _ hnd)]
+
+
+theorem ltIdP_asymm (a b : Int × PyDict) (h : ltIdP a b = true) : ltIdP b a = false := by
+  unfold ltIdP at *
+  simp only [decide_eq_true_eq, decide_eq_false_iff_not] at *
+  omega
+
+theorem ltIdP_trans (a b c : Int × PyDict) (h1 : leOf ltIdP a b) (h2 : leOf ltIdP b c) : leOf ltIdP a c := by
+  unfold leOf ltIdP at *
+  simp only [decide_eq_false_iff_not] at *
+  omega
+
+theorem ltIdP_anti (l : List (Int × PyDict)) (hnd : (l.map (·.1)).Nodup) :
+    ∀ a ∈ l, ∀ b ∈ l, leOf ltIdP a b → leOf ltIdP b a → a = b := by
+  intro a ha b hb h1 h2
+  unfold leOf ltIdP at *
+  simp only [decide_eq_false_iff_not] at *
+  have : a.1 = b.1 := by omega
+  exact List.inj_on_of_nodup_map hnd ha hb this
+
+theorem paramsOf_eq_filterMap (t : Tbl) (txs : List Tx) :
+    paramsOf t txs = txs.filterMap (fun x => match x with
+      | .t1 id p => if t = .E then some (id, p) else none
+      | .t2 id p => if t = .L then some (id, p) else none
+      | .t3 id p => if t = .V then some (id, p) else none
+      | _ => none) := by
+  induction txs with
+  | nil => simp [paramsOf]
+  | cons x xs ih => cases x <;> cases t <;> simp [paramsOf, ih]
+
+theorem paramsOf_perm (t : Tbl) (txs txs' : List Tx) (hp : txs.Perm txs') : (paramsOf t txs).Perm (paramsOf t txs') := by
+  rw [paramsOf_eq_filterMap, paramsOf_eq_filterMap]; exact hp.filterMap _
+
+theorem t4sOf_perm (txs txs' : List Tx) (hp : txs.Perm txs') : (t4sOf txs).Perm (t4sOf txs') := by
+  rw [t4sOf_eq_filterMap, t4sOf_eq_filterMap]; exact hp.filterMap _
+
+theorem specParams_perm (rnd : Rat → Rat) (t : Tbl) (txs txs' : List Tx) (hp : txs.Perm txs')
+    (hnd : ((paramsOf t txs).map (·.1)).Nodup) : specParams rnd t txs = specParams rnd t txs' := by
+  unfold specParams
+  rw [sortBy_eq_of_perm ltIdP ltIdP_asymm ltIdP_trans _ _ (paramsOf_perm t _ _ hp) (ltIdP_anti _ hnd)]
+
+theorem lastExperiment_foldl_noexp (recs : List Rec) (acc : Row) (h : ∀ d, Rec.experiment d ∉ recs) :
+    recs.foldl (fun acc r => match r with | .experiment d => d | _ => acc) acc = acc := by
+  induction recs generalizing acc with
+  | nil => simp
+  | cons r rs ih =>
+    have hr : ∀ d, Rec.experiment d ∉ rs := fun d hd => h d (by simp [hd])
+    cases r with
+    | experiment d => exact absurd (by simp) (h d)
+    | _ => simpa using ih _ hr
+
+theorem encodeTx_not_experiment (rnd : Rat → Rat) (f : Bool) (txs : List Tx) (h : ∀ m, Tx.t0 m ∉ txs) :
+    ∀ d, Rec.experiment d ∉ txs.map (encodeTx rnd f) := by
+  intro d hd
+  obtain ⟨tx, htx, he⟩ := List.mem_map.mp hd
+  cases tx with
+  | t0 m => exact h m htx
+  | _ => simp [encodeTx] at he
+
+/-- [core] a clean run returns exactly the Result the statement demands -/
+theorem run_spec' (rnd : Rat → Rat) (info : PyDict) (txs : List Tx) (hc : CleanRun txs) :
+    runNoFile rnd true true info txs = .ok (specResult rnd info txs) := by
+  obtain ⟨res, h, hi, he, hl, hv⟩ := runNoFile_spec rnd info txs hc.wf hc.triNodup
+  have hexp : res.experiment = wireDict rnd info := by
+    have := h
+    simp only [runNoFile, encode, Bool.false_eq_true, if_false, List.singleton_append, readLog, ne_eq, not_true_eq_false,
+      interactions_encode rnd (.t0 info :: txs) hc.wf hc.triNodup] at this
+    injection this with this
+    rw [← this]
+    simp only [lastExperiment, List.map_cons, encodeTx, List.foldl_cons]
+    exact lastExperiment_foldl_noexp _ _ (encodeTx_not_experiment rnd true txs hc.noT0)
+  rw [h]
+  congr 1
+  cases res
+  simp only [specResult, Result.mk.injEq] at *
+  refine ⟨hexp, ?_, ?_, ?_, hi⟩
+  · rw [he]; exact compTable_encode rnd true .E (.t0 info :: txs) (hc.idNodup .E) (hc.keysOk .E)
+  · rw [hl]; exact compTable_encode rnd true .L (.t0 info :: txs) (hc.idNodup .L) (hc.keysOk .L)
+  · rw [hv]; exact compTable_encode rnd true .V (.t0 info :: txs) (hc.idNodup .V) (hc.keysOk .V)
+
+theorem specResult_perm (rnd : Rat → Rat) (info : PyDict) (txs txs' : List Tx) (hp : txs.Perm txs') (hc : CleanRun txs) :
+    specResult rnd info txs = specResult rnd info txs' := by
+  simp only [specResult, specParams_perm rnd _ txs txs' hp (hc.idNodup _), specInteractions_perm rnd txs txs' hp hc.triNodup]
+
+theorem cleanRun_perm (txs txs' : List Tx) (hp : txs.Perm txs') (hc : CleanRun txs) : CleanRun txs' where
+  noT0 := fun m hm => hc.noT0 m (hp.mem_iff.mpr hm)
+  wf := fun ir hir => hc.wf ir ((t4sOf_perm _ _ hp).mem_iff.mpr hir)
+  triNodup := (((t4sOf_perm _ _ hp).map (·.1)).nodup_iff).mp hc.triNodup
+  idNodup := fun t => (((paramsOf_perm t _ _ hp).map (·.1)).nodup_iff).mp (hc.idNodup t)
+  keysOk := fun t ip hip => hc.keysOk t ip ((paramsOf_perm t _ _ hp).mem_iff.mpr hip)
 
 
 end Coba.C07
